@@ -1,4 +1,5 @@
 import AM.Model.Health
+import AM.Proofs.C03
 /-! # C18 — readiness is reported only when every registered component is ready
 
 `status`: for EVERY sequence of registrations and ready-marks (any names, re-registration and
@@ -159,5 +160,18 @@ theorem consistent (m : M) :
 example : (respond (fold [.add "a".toList, .ready "a".toList, .add "a".toList])).1 = 503 := by decide
 example : (respond (fold [.add "a".toList, .add "b".toList, .ready "b".toList, .ready "a".toList])).1 = 200 := by
   decide
+
+/-- snapshot consistency under concurrency: for EVERY interleaving (at lock granularity) of
+registrations, ready-marks and status requests, every answer of the endpoint is the answer for one
+single state of the map — hence (by `consistent`) its `overall` entry is `ok` iff every listed
+component is `ok` -/
+theorem snapshot (progs : List (List (AM.Conc.Op AM.Conc.HS Unit)))
+    (hp : ∀ p ∈ progs, ∀ op ∈ p, (∃ o, op = AM.Conc.healthStore o) ∨ op = AM.Conc.healthLen ∨
+      op = AM.Conc.healthIterate) (sched : List Nat) :
+    let fin := AM.Conc.runSched (AM.Conc.start (([], []) : AM.Conc.HS) progs) sched
+    fin.g = none → ∀ r ∈ fin.sh.2, (r.1 = 200 ↔ ∀ kv ∈ r.2, kv.2 = ok) := by
+  intro fin hg r hr
+  obtain ⟨m, rfl⟩ := AM.C03.health_snapshot progs hp sched hg r hr
+  exact consistent m
 
 end AM.C18
